@@ -94,6 +94,14 @@ func genC05(r *Rng, idx int, tier string) *World {
 				op.Methods = []string{pick(r, hostileMethods)}
 			}
 			w.Ops = append(w.Ops, op)
+			// the removed route's own paths (and its neighbours') are what a client keeps sending
+			if p, ok := ParsePattern(op.Pattern, w.Opts.Interceptors); ok {
+				path, _ := p.Witness(r)
+				w.Ops = append(w.Ops, Op{K: "req", Req: &Req{Method: "GET", Path: path}})
+				if len(path) > 1 {
+					w.Ops = append(w.Ops, Op{K: "req", Req: &Req{Method: pick(r, hostileMethods), Path: path[:len(path)-1] + pick(r, []string{"", "x", "/", "\xff"})}})
+				}
+			}
 		case k < 39:
 			w.Ops = append(w.Ops, Op{K: "clean"})
 		case k < 43:
